@@ -155,6 +155,19 @@ def impl(c):
     err, det = stage(lambda: build(c), "ctor")
     if err:
         return {"outcome": err}
+    if c.get("seed", 0) % 3 == 2:
+        # a re-configuration that is rejected (ValueError from the constructor checks) must leave an object that can be
+        # re-configured validly afterwards and then behaves as usual
+        d = c["det"]
+        bad = {"pelt": {"min_segment_length": 0}, "mw": {"bandwidth": 0}, "sbs": {"growth_factor": 1.0}, "cbs": {"growth_factor": 1.0},
+               "capa": {"min_segment_length": 1}, "mvcapa": {"min_segment_length": 1}}.get(d) or {"stat_lower": float(c["hi"]) + 1.0}
+        good = {k: det.get_params()[k] for k in bad}
+        err, _ = stage(lambda: det.set_params(**bad), "reconf")
+        if err is None or ":ValueError:" not in err:
+            return {"outcome": f"reconf: set_params({bad}) did not raise ValueError ({err})"}
+        err, _ = stage(lambda: det.set_params(**good), "reconf-back")
+        if err:
+            return {"outcome": f"after a rejected set_params({bad}) the valid set_params({good}) fails: {err}"}
     if c.get("stage"):  # fit on admissible data, then hand the data under test to predict / transform
         Xfit = make_data(dict(c, n=min_len(c) + 9, nan=False))
         err, _ = stage(lambda: det.fit(Xfit), "fit")
